@@ -479,7 +479,7 @@ func (h *vH) schedule(mode string) {
 	c.mu.Unlock()
 	for _, pid := range started {
 		p := pid
-		if !vWait(5*time.Second, func() bool { return h.atServer(p) || h.atGate(p) }) {
+		if !vWait(15*time.Second, func() bool { return h.atServer(p) || h.atGate(p) }) {
 			h.logf("stuck %d", p)
 		}
 	}
@@ -529,7 +529,7 @@ func (h *vH) releaseGate(i int) {
 	h.logf("open %d", g.pid)
 	close(g.ch)
 	if p != nil {
-		if !vWait(5*time.Second, func() bool { return p.isIdle() }) {
+		if !vWait(15*time.Second, func() bool { return p.isIdle() }) {
 			h.logf("stuck-busy %d", g.pid)
 		}
 		h.logf("flags %d %d %d", g.pid, vb(p.isIdle()), vb(p.isStopped()))
@@ -562,7 +562,7 @@ func (h *vH) run(cmds []string) {
 			op.release <- ins
 			if waiting {
 				pid := op.pid
-				if !vWait(5*time.Second, func() bool { return h.atGate(pid) }) {
+				if !vWait(15*time.Second, func() bool { return h.atGate(pid) }) {
 					h.logf("stuck-nogate %d", pid)
 				}
 			}
@@ -590,7 +590,7 @@ func (h *vH) run(cmds []string) {
 			}
 			pid := op.pid
 			h.logf("await-timeout %d", pid)
-			if !vWait(5*time.Second, func() bool { return !h.clientWaiting(op) }) {
+			if !vWait(15*time.Second, func() bool { return !h.clientWaiting(op) }) {
 				h.logf("stuck-notimeout %d", pid)
 			}
 		case "G": // G:j
@@ -611,7 +611,7 @@ func (h *vH) run(cmds []string) {
 			op.release <- vIns{effect: waiting, ok: waiting}
 			if waiting {
 				pid := op.pid
-				vWait(5*time.Second, func() bool { return h.atGate(pid) })
+				vWait(15*time.Second, func() bool { return h.atGate(pid) })
 			}
 			continue
 		}
